@@ -353,6 +353,7 @@ type govcC17Unit struct {
 	fam               govcFamily
 	wraps             []struct{ name, open, close string }
 	n, k              int
+	cont              *govcC17Container // nil for the units of the first batches
 	evals, nontrivial int
 	sample            string
 	fails             []string // "key :: message"
@@ -380,6 +381,10 @@ func govcC17RunQuiet(src, pageURL string, algo PaginationAlgo) (next, prev strin
 }
 
 func (u *govcC17Unit) run() {
+	if u.cont != nil {
+		u.runInContainer()
+		return
+	}
 	fam, n, k := u.fam, u.n, u.k
 	// the numbered pager: all pages as links except the current one (plain text)
 	var sb strings.Builder
@@ -445,10 +450,186 @@ func (u *govcC17Unit) run() {
 	}
 }
 
+// ---- C17, third batch: the CONTAINER of the pager (appended; the keys above are unchanged) ----
+// The pager of an article sits wherever the theme puts it: in a footer, next to a toolbar, in a Bootstrap media
+// object, under a <body> that carries the theme's layout classes. The prev/next heuristics give the class and id
+// of the ancestors of a link a meaning ("negative": sidebar, footer, comment, widget ...; "positive": article,
+// content, pagination ...). The property says nothing about containers: a conventional numbered pager is
+// resolved by the page-number algorithm, and labelled Next/Prev anchors to k+-1 are returned by the prev/next
+// algorithm, whatever the class names around them.
+type govcC17Container struct {
+	key           string
+	body, gp, par string // attributes of <body>, of the pager's grandparent and of its parent
+}
+
+var govcC17NegativeWords = []string{"sidebar", "footer", "media", "comments", "toolbar", "widget", "meta", "sponsor",
+	"combx", "contact", "masthead", "share", "com-box", "foot", "footnote", "outbrain", "promo", "related", "shoutbox", "shopping", "tags", "tool"}
+
+var govcC17PositiveWords = []string{"article", "body", "content", "pagination", "entry", "main", "post", "story", "pager", "paging"}
+
+func govcC17Containers() []govcC17Container {
+	cls := func(v string) string { return `class="` + v + `"` }
+	id := func(v string) string { return `id="` + v + `"` }
+	var out []govcC17Container
+	out = append(out, govcC17Container{key: "bare"})
+	for i, w := range govcC17NegativeWords {
+		out = append(out, govcC17Container{key: "neg-parent-class/" + w, par: cls(w)})
+		if i < 8 { // the common ones: also further up, as id, and as one class among others
+			out = append(out, govcC17Container{key: "neg-grandparent-class/" + w, gp: cls(w)})
+			out = append(out, govcC17Container{key: "neg-body-class/" + w, body: cls("home layout-" + w + "-right")})
+			out = append(out, govcC17Container{key: "neg-parent-id/" + w, par: id(w)})
+			out = append(out, govcC17Container{key: "neg-grandparent-id/" + w, gp: id("site-" + w)})
+		}
+	}
+	for _, w := range govcC17PositiveWords {
+		out = append(out, govcC17Container{key: "pos-parent-class/" + w, par: cls(w)})
+	}
+	for _, w := range govcC17PositiveWords[:4] {
+		out = append(out, govcC17Container{key: "pos-grandparent-class/" + w, gp: cls(w)})
+		out = append(out, govcC17Container{key: "pos-body-class/" + w, body: cls(w)})
+	}
+	out = append(out,
+		// several at once, negative only
+		govcC17Container{"multi-neg/theme-sidebar-wrapper", cls("home layout-sidebar-right"), id("wrapper"), ""},
+		govcC17Container{"multi-neg/has-toolbar", "", cls("has-toolbar"), cls("pages")},
+		govcC17Container{"multi-neg/footer-in-sidebar", "", cls("sidebar"), id("footer")},
+		govcC17Container{"multi-neg/all-three", cls("has-toolbar"), cls("sidebar widget-area"), cls("footer meta")},
+		govcC17Container{"multi-neg/media-body", "", cls("media"), cls("media-body")},
+		// negative and positive words together
+		govcC17Container{"mixed/body-and-footer", "", "", cls("body-and-footer")},
+		govcC17Container{"mixed/sidebar-content", "", "", cls("sidebar-content")},
+		govcC17Container{"mixed/pagination-in-footer", "", id("footer"), cls("pagination")},
+		govcC17Container{"mixed/footer-in-pagination", "", cls("pagination"), cls("footer")},
+		govcC17Container{"mixed/pagination-under-sidebar-body", cls("layout-sidebar-left"), "", cls("pagination")},
+		govcC17Container{"mixed/article-comments", "", cls("article"), cls("comments")},
+		govcC17Container{"mixed/post-meta", "", cls("post"), cls("post-meta")},
+		govcC17Container{"mixed/entry-footer", cls("single-post"), cls("entry"), cls("entry-footer")},
+	)
+	return out
+}
+
+// the families and (N,k) points crossed with the containers: the three kinds of URL pattern, a short single
+// path component (little URL evidence for the prev/next scores) and a number inside the path
+var govcC17ContainerFamilies = []string{"query", "path-trailing-slash", "file-suffix", "single-p", "path-inner"}
+var govcC17ContainerPoints = [][2]int{{3, 1}, {3, 2}, {3, 3}, {8, 1}, {8, 2}, {8, 5}, {8, 8}}
+
+// families whose URLs carry no paging evidence for the prev/next scorer (see runInContainer)
+var govcC17WeakURLFamilies = map[string]bool{"file-suffix": true, "path-inner": true}
+
+// negativeOnlyAncestor: some ancestor's class+id carries one of the "negative" words and none of the "positive"
+// ones (the word lists of the prev/next heuristics; "share" is not among them, it only counts in link texts).
+func (c *govcC17Container) negativeOnlyAncestor() bool {
+	negative := []string{"combx", "comment", "com-", "contact", "foot", "masthead", "media", "meta", "outbrain", "promo", "related", "shoutbox", "sidebar", "sponsor", "shopping", "tags", "tool", "widget"}
+	positive := []string{"article", "body", "content", "entry", "main", "page", "pagination", "post", "text", "blog", "story"}
+	has := func(attrs string, words []string) bool {
+		for _, w := range words {
+			if strings.Contains(strings.ToLower(attrs), w) {
+				return true
+			}
+		}
+		return false
+	}
+	for _, attrs := range []string{c.par, c.gp, c.body} {
+		if has(attrs, negative) && !has(attrs, positive) {
+			return true
+		}
+	}
+	return false
+}
+
+// pagingAncestor: some ancestor's class+id says page / paging / pagination (that earns the 25 points back)
+func (c *govcC17Container) pagingAncestor() bool {
+	all := strings.ToLower(c.par + " " + c.gp + " " + c.body)
+	return strings.Contains(all, "page") || strings.Contains(all, "paging") || strings.Contains(all, "paginat")
+}
+
+func (c *govcC17Container) doc(pager string) string {
+	return `<html><head><title>Article</title></head><body ` + c.body + `><div id="content">` + govcPagerFiller +
+		`</div><div ` + c.gp + `><div ` + c.par + `>` + pager + `</div></div></body></html>`
+}
+
+func (u *govcC17Unit) runInContainer() {
+	fam, n, k, c := u.fam, u.n, u.k, u.cont
+	wantNext, wantPrev := "", ""
+	if k < n {
+		wantNext = govcC17Norm(fam.url(k + 1))
+	}
+	if k > 1 {
+		wantPrev = govcC17Norm(fam.url(k - 1))
+	}
+	// the numbered pager, as links and text in the container and as a list with the current page in an <li>
+	for _, markup := range []string{"inline", "ul-li"} {
+		var sb strings.Builder
+		for i := 1; i <= n; i++ {
+			switch {
+			case markup == "inline" && i == k:
+				fmt.Fprintf(&sb, "%d ", i)
+			case markup == "inline":
+				fmt.Fprintf(&sb, `<a href="%s">%d</a> `, fam.url(i), i)
+			case i == k:
+				fmt.Fprintf(&sb, `<li class="current">%d</li>`, i)
+			default:
+				fmt.Fprintf(&sb, `<li><a href="%s">%d</a></li>`, fam.url(i), i)
+			}
+		}
+		pager := sb.String()
+		if markup == "ul-li" {
+			pager = `<ul class="pages">` + pager + `</ul>`
+		}
+		next, prev, ok := govcC17RunQuiet(c.doc(pager), fam.url(k), PageNumber)
+		u.evals++
+		u.nontrivial++ // N >= 2: a link is always expected
+		key := fmt.Sprintf("number-container/%s/%s/%s/N%d/k%d", c.key, fam.name, markup, n, k)
+		if !ok {
+			u.failf("%s :: expected a result, the call failed", key)
+			continue
+		}
+		if next != wantNext {
+			u.failf("%s/next :: NextPage %q, expected %q; the result of the page-number algorithm for a conventional numbered pager does not depend on the class names of its ancestors (<body %s> <div %s> <div %s>)", key, next, wantNext, c.body, c.gp, c.par)
+		}
+		if prev != wantPrev {
+			u.failf("%s/prev :: PrevPage %q, expected %q; the result of the page-number algorithm for a conventional numbered pager does not depend on the class names of its ancestors (<body %s> <div %s> <div %s>)", key, prev, wantPrev, c.body, c.gp, c.par)
+		}
+	}
+	// the labelled pager in the same container
+	for _, prevLabel := range []string{"Prev", "Previous"} {
+		var lb strings.Builder
+		if k > 1 {
+			fmt.Fprintf(&lb, `<a href="%s">%s</a> `, fam.url(k-1), prevLabel)
+		}
+		if k < n {
+			fmt.Fprintf(&lb, `<a href="%s">Next</a>`, fam.url(k+1))
+		}
+		lnext, lprev, ok := govcC17RunQuiet(c.doc(lb.String()), fam.url(k), PrevNext)
+		u.evals++
+		u.nontrivial++
+		// Known on HEAD (kept, under its own key prefix so that it can be recorded as one family): the prev/next
+		// algorithm is a score with a threshold; a negative-only ancestor costs 25 points, and when the URL family
+		// gives the scorer no evidence of its own (no "page"/"p=" in the URL, no trailing number: file-name suffix,
+		// number inside the path) and no ancestor says "page"/"paging"/"pagination", the labelled anchor stays below
+		// the threshold and nothing is returned.
+		prefix := "prevnext-container"
+		if c.negativeOnlyAncestor() && !c.pagingAncestor() && govcC17WeakURLFamilies[fam.name] {
+			prefix = "prevnext-negcontainer-weakurl"
+		}
+		key := fmt.Sprintf("%s/%s/%s/N%d/k%d/%s", prefix, c.key, fam.name, n, k, prevLabel)
+		if !ok {
+			u.failf("%s :: expected a result, the call failed", key)
+			continue
+		}
+		if lnext != wantNext {
+			u.failf("%s/next :: NextPage %q, expected %q (anchor labelled Next pointing to page k+1; <body %s> <div %s> <div %s>)", key, lnext, wantNext, c.body, c.gp, c.par)
+		}
+		if lprev != wantPrev {
+			u.failf("%s/prev :: PrevPage %q, expected %q (anchor labelled %s pointing to page k-1; <body %s> <div %s> <div %s>)", key, lprev, wantPrev, prevLabel, c.body, c.gp, c.par)
+		}
+	}
+}
+
 func TestGovcConventionalPagerReplay(t *testing.T) {
 	evals, nontrivial := 0, 0
 	defer func() {
-		fmt.Printf("GOVC-CASES evaluations=%d distinct_nontrivial=%d rule=%s\n", evals, nontrivial, "every (URL family, N in 2..12, k in 1..N) x {numbered pager with PageNumber, Prev/Next and Previous/Next anchors with PrevNext in 3 wrappers (first 8 families) or 2 wrappers (23 further families: single path component with short/long fixed part or bare number, number followed by more components, query at the root/dir/script path and other parameter names, htm/php/no extension)}; distinct by construction; non-trivial = a non-empty link is expected and was compared")
+		fmt.Printf("GOVC-CASES evaluations=%d distinct_nontrivial=%d rule=%s\n", evals, nontrivial, "every (URL family, N in 2..12, k in 1..N) x {numbered pager with PageNumber, Prev/Next and Previous/Next anchors with PrevNext in 3 wrappers (first 8 families) or 2 wrappers (23 further families: single path component with short/long fixed part or bare number, number followed by more components, query at the root/dir/script path and other parameter names, htm/php/no extension)}; distinct by construction; non-trivial = a non-empty link is expected and was compared; plus the CONTAINER of the pager: "+fmt.Sprint(len(govcC17Containers()))+" containers (bare; each of 22 negative-looking words (sidebar, footer, media, comments, toolbar, widget, meta, sponsor, combx, contact, masthead, share, com-, foot, footnote, outbrain, promo, related, shoutbox, shopping, tags, tool) as class of the pager's parent, the first 8 also as class of the grandparent, inside a theme class of <body>, as id of parent and grandparent; 10 positive-looking words (article, body, content, pagination, entry, main, post, story, pager, paging) on parent, 4 of them on grandparent and <body>; 5 combinations of negatives on several levels; 8 mixtures of negative and positive words) x 5 URL families (query, path with trailing slash, file-name suffix, short single path component, number inside the path) x 7 (N,k) points (N=3: k=1,2,3; N=8: k=1,2,5,8) x {numbered pager inline and as ul/li with PageNumber (keys number-container/...), Prev/Next and Previous/Next anchors with PrevNext (keys prevnext-container/...; prevnext-negcontainer-weakurl/... = negative-only ancestor, no page-ish ancestor, URL family without paging evidence)}")
 	}()
 	var units []*govcC17Unit
 	families := append(append([]govcFamily{}, govcFamilies...), govcFamiliesExt...)
@@ -460,6 +641,20 @@ func TestGovcConventionalPagerReplay(t *testing.T) {
 		for n := 2; n <= 12; n++ {
 			for k := 1; k <= n; k++ {
 				units = append(units, &govcC17Unit{fam: fam, wraps: wraps, n: n, k: k})
+			}
+		}
+	}
+	// third batch: containers x 5 families x 7 (N,k) points
+	containers := govcC17Containers()
+	for ci := range containers {
+		for _, name := range govcC17ContainerFamilies {
+			for _, fam := range families {
+				if fam.name != name {
+					continue
+				}
+				for _, nk := range govcC17ContainerPoints {
+					units = append(units, &govcC17Unit{fam: fam, n: nk[0], k: nk[1], cont: &containers[ci]})
+				}
 			}
 		}
 	}
